@@ -10,7 +10,7 @@ import shutil
 import subprocess
 import sys
 
-from ..common import Ctx, SCRATCH_DIR, ROOT
+from ..common import Ctx, SCRATCH_DIR, ROOT, REPO
 from ..gen.workload import make_doc, cases
 from .. import kpx
 
@@ -56,7 +56,8 @@ def run_cli(args, env=None, strace_log=None):
     if strace_log:
         cmd = ['strace', '-f', '-e', 'trace=openat,mkdir', '-o', strace_log] + cmd
     e = dict(os.environ)
-    e.pop('PYTHONPATH', None)
+    # the tree under test only (no harness modules): /repo, or the scratch tree of a seeded-change trial
+    e['PYTHONPATH'] = str(REPO)
     if env:
         e.update(env)
     return subprocess.run(cmd, capture_output=True, text=True, timeout=120, env=e, cwd='/')
@@ -268,7 +269,9 @@ def cli_level(ctx: Ctx, cs, base, real=False, strace=False):
     else:
         ctx.nontriv(cs, 'roundtrip', real)
     # 2b. the reverse converter on inputs with and without final newline (expected: exactly get_kern_from_ekern(text))
-    for nm, src in (('nofinal', expect.rstrip('\n')), ('final', expect), ('empty', '')):
+    for nm, src in (('nofinal', expect.rstrip('\n')), ('final', expect), ('empty', ''),
+                    # the same ekern text with CRLF line ends (a file edited on another platform): the line ends are content
+                    ('crlf', expect.replace('\n', '\r\n')), ('crlf-nofinal', expect.rstrip('\n').replace('\n', '\r\n'))):
         fin = os.path.join(root, 'single', f'raw-{nm}.ekrn')
         fout = os.path.join(root, 'single', f'raw-{nm}.krn')
         write(fin, src)
@@ -276,7 +279,7 @@ def cli_level(ctx: Ctx, cs, base, real=False, strace=False):
         ctx.ev()
         ctx.mon('cli_runs')
         if not os.path.exists(fout) or read(fout) != kp.get_kern_from_ekern(src):
-            ctx.violation('cli-ekern2kern', f'ekern2kern on an input {nm} ({"without" if nm == "nofinal" else "with"} final newline): output '
+            ctx.violation('cli-ekern2kern', f'ekern2kern on an input [{nm}]: output '
                           f'{"missing" if not os.path.exists(fout) else repr(read(fout)[-20:])} differs from get_kern_from_ekern(text) '
                           f'{kp.get_kern_from_ekern(src)[-20:]!r}', case)
     # 2c. a file without any **kern spine: the API result is the empty string
@@ -418,7 +421,7 @@ def locale_level(ctx: Ctx, cs, base):
         ctx.ev()
         ctx.mon('locale_configurations')
         e = dict(os.environ)
-        e.pop('PYTHONPATH', None)
+        e['PYTHONPATH'] = str(REPO)
         e.update(env)
         r = subprocess.run([sys.executable, '-c', CHILD, root], capture_output=True, text=True, env=e, timeout=120, cwd='/')
         case = {'case_seed': cs, 'configuration': cfg, 'text': text}
